@@ -1,1 +1,587 @@
-fn main() { eprintln!("not built yet"); std::process::exit(2); }
+//! C10 — corruption of protected data is detected; intact data always verifies.
+//!
+//! Fault enumeration: small archives for every kind of integrity metadata are built with the real
+//! `ArchiveBuilder`; at EVERY byte offset of the protected regions each fault value is applied and
+//! the real read / verify operations (wow-mpq `Archive`, storm-ffi `SFileVerifyFile` /
+//! `SFileVerifyArchive`) are run on the result.  Judged is the property's disjunction: a fault is a
+//! violation only if a read returns `Ok` with bytes different from the original AND no applicable
+//! verify operation reports failure.
+#[allow(dead_code, unused_imports, clippy::all)]
+#[path = "/repo/ffi/storm-ffi/src/lib.rs"]
+mod storm;
+
+mod arch;
+mod eval;
+mod sigprim;
+
+use arch::{Built, Span};
+use eval::{isolated, observe, Iso, Obs, ReadRes, MD5_FIELDS, VFLAGS};
+use serde_json::{json, Value};
+use std::sync::{Mutex, OnceLock};
+use vcore::*;
+
+/// address-space headroom of an isolated evaluation above what the worker maps at that moment
+const AS_LIMIT: u64 = 96 << 20;
+const EVAL_TIMEOUT_MS: i32 = 30_000;
+
+fn jfiles(b: &Built) -> Vec<(String, Vec<u8>)> {
+    b.files.iter().map(|f| (f.name.clone(), f.data.clone())).collect()
+}
+
+fn build_all(tier: Tier, sc: &Scratch) -> Vec<Built> {
+    arch::catalogue(tier).iter().map(|s| arch::build(s, sc)).collect()
+}
+
+/// Does SFileVerifyArchive(SFILE_VERIFY_ALL_FILES) return at all? (probe on an intact archive)
+fn all_files_probe(b: &Built, sc: &Scratch, timeout_ms: i32) -> Iso {
+    let p = sc.path("probe.mpq");
+    std::fs::write(&p, &b.bytes).expect("write scratch");
+    let files = jfiles(b);
+    isolated(timeout_ms, AS_LIMIT, || observe(&p, &files, true).to_json())
+}
+
+// ---------------------------------------------------------------- intact archives
+
+struct Intact {
+    sc: Scratch,
+    built: Vec<Built>,
+}
+impl Space for Intact {
+    fn len(&self) -> u64 {
+        self.built.len() as u64
+    }
+    fn describe(&self, i: u64) -> Value {
+        let b = &self.built[i as usize];
+        json!({"archive": b.spec.id, "config": b.spec.json(), "what": "intact archive: every read and verify operation must succeed",
+               "files": b.files.iter().map(|f| format!("{} [{}]", f.name, f.storage)).collect::<Vec<_>>(), "bytes": b.bytes.len()})
+    }
+    fn run(&self, i: u64) -> CaseResult {
+        let b = &self.built[i as usize];
+        let mut r = CaseResult::new();
+        r.nontrivial = true;
+        r.key = format!("intact/{}", b.spec.id);
+        let p = self.sc.path("intact.mpq");
+        std::fs::write(&p, &b.bytes).expect("write scratch");
+        let files = jfiles(b);
+        let o = match isolated(EVAL_TIMEOUT_MS, AS_LIMIT, || observe(&p, &files, false).to_json()) {
+            Iso::Done(v) if v.get("child_panic").is_none() => Obs::from_json(&v),
+            Iso::Done(v) => {
+                r.viol("intact archive: check-side panic", v["child_panic"].to_string());
+                return r;
+            }
+            Iso::Died(d) => {
+                r.viol("intact archive: the process dies while reading / verifying", d);
+                return r;
+            }
+            Iso::Hung => {
+                r.viol("intact archive: read / verify operations do not return", format!("> {} ms", EVAL_TIMEOUT_MS));
+                return r;
+            }
+        };
+        if let Some(e) = &o.open_err {
+            r.viol("intact archive: Archive::open fails", e.clone());
+            return r;
+        }
+        for (k, rr) in o.reads.iter().enumerate() {
+            if *rr != ReadRes::Same {
+                r.viol(format!("intact archive: read_file does not return the original content ({} file)", b.files[k].storage), format!("{}: {:?}", b.files[k].name, rr));
+            }
+        }
+        if !o.ffi_open {
+            r.viol("intact archive: SFileOpenArchive fails", "");
+        }
+        for (k, row) in o.vfile.iter().enumerate() {
+            for (j, t) in row.iter().enumerate() {
+                if *t != Some(true) {
+                    r.viol(format!("intact archive: SFileVerifyFile(flags={:#x}) reports failure ({} file)", VFLAGS[j], b.files[k].storage), format!("{}: {:?}", b.files[k].name, t));
+                }
+            }
+        }
+        if o.varch_default != Some(true) || o.varch_sig != Some(true) {
+            r.viol("intact archive: SFileVerifyArchive(signature) reports failure", format!("flags 0: {:?}, SFILE_VERIFY_SIGNATURE: {:?}", o.varch_default, o.varch_sig));
+        }
+        if let Some(e) = &o.info_err {
+            r.viol("intact archive: get_info fails", e.clone());
+        }
+        if b.spec.version == 3 {
+            match &o.md5 {
+                None => r.viol("intact V4 archive: get_info().md5_status is absent", ""),
+                Some(m) => {
+                    let bad: Vec<&str> = (0..6).filter(|&k| !m[k]).map(|k| MD5_FIELDS[k]).collect();
+                    if !bad.is_empty() {
+                        r.viol(format!("intact V4 archive: get_info().md5_status reports invalid digests: {}", bad.join(",")), format!("{:?}; notes: {:?}", m, b.notes));
+                    }
+                }
+            }
+        }
+        if b.spec.signed {
+            if o.sig != "WeakValid" || o.info_sig != "WeakValid" {
+                r.viol("intact signed archive: signature produced by generate_weak_signature is not reported WeakValid", format!("verify_signature: {}, get_info().signature_status: {}", o.sig, o.info_sig));
+            }
+        } else if o.sig != "None" {
+            r.viol("intact unsigned archive: verify_signature does not report None", o.sig.clone());
+        }
+        r.outcome = format!("md5={:?};sig={};", o.md5, o.sig);
+        r.count("intact_files_read", o.reads.len() as u64);
+        r
+    }
+    fn case_timeout(&self) -> u64 {
+        120
+    }
+}
+
+// ---------------------------------------------------------------- SFILE_VERIFY_ALL_FILES
+
+/// SFileVerifyArchive(SFILE_VERIFY_ALL_FILES) on intact archives, in its own process: it may never return.
+struct AllFiles {
+    sc: Scratch,
+    built: Vec<Built>,
+    pick: Vec<usize>,
+}
+impl AllFiles {
+    fn new(tier: Tier) -> AllFiles {
+        let sc = Scratch::new("c10a");
+        let built = build_all(tier, &sc);
+        let pick: Vec<usize> = match tier {
+            Tier::Thorough => (0..built.len()).collect(),
+            // quick: first archive, first with a listfile, first signed, first V4
+            Tier::Quick => {
+                let mut v = vec![0usize];
+                for f in [(|b: &Built| b.spec.listfile) as fn(&Built) -> bool, |b| b.spec.signed, |b| b.spec.version == 3] {
+                    if let Some(k) = built.iter().position(f) {
+                        if !v.contains(&k) {
+                            v.push(k);
+                        }
+                    }
+                }
+                v
+            }
+        };
+        AllFiles { sc, built, pick }
+    }
+}
+impl Space for AllFiles {
+    fn len(&self) -> u64 {
+        self.pick.len() as u64
+    }
+    fn describe(&self, i: u64) -> Value {
+        let b = &self.built[self.pick[i as usize]];
+        json!({"archive": b.spec.id, "config": b.spec.json(), "what": "intact archive: SFileVerifyArchive(SFILE_VERIFY_ALL_FILES | SFILE_VERIFY_SIGNATURE) in a child process"})
+    }
+    fn run(&self, i: u64) -> CaseResult {
+        let b = &self.built[self.pick[i as usize]];
+        let mut r = CaseResult::new();
+        r.nontrivial = true;
+        r.key = format!("allfiles/{}", b.spec.id);
+        match all_files_probe(b, &self.sc, 4_000) {
+            Iso::Done(v) => {
+                let oo = Obs::from_json(&v);
+                if oo.varch_all != Some(true) {
+                    r.viol("intact archive: SFileVerifyArchive(SFILE_VERIFY_ALL_FILES) reports failure", format!("{:?}", oo.varch_all));
+                }
+                r.outcome.push_str("all_files=returns");
+            }
+            Iso::Hung => {
+                r.viol("intact archive: SFileVerifyArchive(SFILE_VERIFY_ALL_FILES) never returns (self-deadlock)", "no result within 4 s; SFileVerifyArchive holds the ARCHIVES mutex while it calls SFileVerifyFile, which locks it again");
+                r.outcome.push_str("all_files=hangs");
+            }
+            Iso::Died(d) => {
+                r.viol("intact archive: SFileVerifyArchive(SFILE_VERIFY_ALL_FILES) kills the process", d);
+                r.outcome.push_str("all_files=dies");
+            }
+        }
+        r
+    }
+    fn case_timeout(&self) -> u64 {
+        60
+    }
+}
+
+// ---------------------------------------------------------------- faults
+
+#[derive(Clone, Debug)]
+struct Fault {
+    label: String,
+    writes: Vec<(usize, u8)>,
+}
+
+/// fault values applied at offset `o` of `span` (no-ops and duplicates removed)
+fn faults_at(bytes: &[u8], span: &Span, o: usize, tier: Tier) -> (Vec<Fault>, u64) {
+    let x = bytes[o];
+    let mut out: Vec<Fault> = vec![];
+    let mut skipped = 0u64;
+    let mut seen: Vec<Vec<(usize, u8)>> = vec![];
+    let mut push = |label: String, writes: Vec<(usize, u8)>, out: &mut Vec<Fault>, skipped: &mut u64| {
+        let eff: Vec<(usize, u8)> = writes.into_iter().filter(|&(p, v)| bytes[p] != v).collect();
+        if eff.is_empty() || seen.contains(&eff) {
+            *skipped += 1;
+            return;
+        }
+        seen.push(eff.clone());
+        out.push(Fault { label, writes: eff });
+    };
+    let singles: Vec<(&str, u8)> = match tier {
+        Tier::Quick => vec![("^0x01", x ^ 0x01), ("=0xFF", 0xFF)],
+        Tier::Thorough => vec![("^0x01", x ^ 0x01), ("^0x80", x ^ 0x80), ("=0x00", 0x00), ("=0xFF", 0xFF)],
+    };
+    for (l, v) in singles {
+        push(l.to_string(), vec![(o, v)], &mut out, &mut skipped);
+    }
+    if span.signature {
+        for k in 1..8u8 {
+            if k == 7 && tier == Tier::Thorough {
+                continue; // ^0x80 already applied
+            }
+            push(format!("^{:#04x}", 1u8 << k), vec![(o, x ^ (1 << k))], &mut out, &mut skipped);
+        }
+    }
+    if (o - span.start) % 4 == 0 {
+        for n in [2usize, 4] {
+            let e = (o + n).min(span.end);
+            push(format!("{}-byte overwrite 0xFF", n), (o..e).map(|p| (p, 0xFFu8)).collect(), &mut out, &mut skipped);
+        }
+    }
+    (out, skipped)
+}
+
+struct Faults {
+    tier: Tier,
+    sc: Scratch,
+    built: Vec<Built>,
+    cases: Vec<(u32, u32, u32)>,
+    base: Vec<OnceLock<Obs>>,
+    lock: Mutex<()>,
+}
+impl Faults {
+    fn new(tier: Tier) -> Faults {
+        let sc = Scratch::new("c10");
+        let built = build_all(tier, &sc);
+        let mut cases = vec![];
+        for (ai, b) in built.iter().enumerate() {
+            for (si, s) in b.spans.iter().enumerate() {
+                // quick: strides co-prime to 4 so that every byte lane of the dwords is still visited
+                let stride = if s.payload { tier.pick(5, 1) } else if s.region == "hash_table" { tier.pick(3, 1) } else { 1 };
+                let mut o = s.start;
+                while o < s.end {
+                    cases.push((ai as u32, si as u32, o as u32));
+                    o += stride;
+                }
+            }
+        }
+        let base = built.iter().map(|_| OnceLock::new()).collect();
+        Faults { tier, sc, built, cases, base, lock: Mutex::new(()) }
+    }
+    fn axes(&self) -> Value {
+        let mut regions: std::collections::BTreeMap<String, u64> = Default::default();
+        for &(a, s, _) in &self.cases {
+            *regions.entry(self.built[a as usize].spans[s as usize].region.clone()).or_insert(0) += 1;
+        }
+        json!({"archives": self.built.len(), "protected_offsets_visited": self.cases.len(),
+               "protected_bytes_total": self.built.iter().map(|b| b.spans.iter().map(|s| s.end - s.start).sum::<usize>()).sum::<usize>(),
+               "fault_values_per_offset": self.tier.pick("^0x01, =0xFF, 2/4-byte 0xFF overwrite at 4-aligned offsets (+ all 8 bit flips on signature bytes)",
+                                                         "^0x01, ^0x80, =0x00, =0xFF, 2/4-byte 0xFF overwrite at 4-aligned offsets (+ all 8 bit flips on signature bytes)"),
+               "payload_stride": self.tier.pick(5, 1), "hash_table_stride": self.tier.pick(3, 1), "offsets_per_region_class": regions,
+               "archive_ids": self.built.iter().map(|b| b.spec.id.clone()).collect::<Vec<_>>()})
+    }
+    /// SFILE_VERIFY_ALL_FILES is exercised by space `intact` only: it is a loop over SFileVerifyFile,
+    /// which the fault space calls directly for every judged file, and it currently never returns.
+    fn all_files(&self) -> bool {
+        false
+    }
+    fn baseline(&self, a: usize) -> &Obs {
+        self.base[a].get_or_init(|| {
+            let b = &self.built[a];
+            let p = self.sc.path("base.mpq");
+            std::fs::write(&p, &b.bytes).expect("write scratch");
+            let files = jfiles(b);
+            let all = self.all_files();
+            match isolated(EVAL_TIMEOUT_MS, AS_LIMIT, || observe(&p, &files, all).to_json()) {
+                Iso::Done(v) => Obs::from_json(&v),
+                _ => Obs { open_err: Some("baseline observation died".into()), ..Default::default() },
+            }
+        })
+    }
+}
+
+/// protection label used in symptom strings: the metadata that claims the faulted bytes
+fn protection_for(b: &Built, span: &Span) -> String {
+    let structural = span.file.is_none() && !span.region.starts_with("attributes_file");
+    let mut v: Vec<String> = vec![];
+    if structural {
+        if b.spec.version == 3 {
+            v.push("v4-digests".into());
+        }
+    } else {
+        let p = b.spec.protection();
+        for part in p.split('+') {
+            if part != "v4-digests" && part != "weak-signature" && !part.is_empty() {
+                v.push(part.to_string());
+            }
+        }
+    }
+    if b.spec.signed {
+        v.push("weak-signature".into());
+    }
+    v.join("+")
+}
+
+/// The property's disjunction on one faulted archive. Returns (violations, outcome class).
+fn judge(b: &Built, span: &Span, base: &Obs, o: &Obs) -> (Vec<(String, String)>, &'static str) {
+    let mut viols = vec![];
+    if o.open_err.is_some() {
+        return (viols, "open-fails");
+    }
+    // signature clause: stops verifying after any change to the signed bytes or to the signature
+    if span.signed && (o.sig == "WeakValid" || o.info_sig == "WeakValid") {
+        viols.push((
+            format!("weak-signature: still reported WeakValid after a change in {}", span.region),
+            format!("verify_signature: {}, get_info().signature_status: {}", o.sig, o.info_sig),
+        ));
+    }
+    // archive-level detectors (only operations that succeeded on the intact archive can detect)
+    let mut arch_det: Vec<String> = vec![];
+    if base.ffi_open && !o.ffi_open {
+        arch_det.push("SFileOpenArchive fails".into());
+    }
+    if let Some(bm) = &base.md5 {
+        match &o.md5 {
+            None => arch_det.push("get_info fails / md5_status absent".into()),
+            Some(om) => {
+                for k in 0..6 {
+                    if bm[k] && !om[k] {
+                        arch_det.push(format!("md5_status.{}=false", MD5_FIELDS[k]));
+                    }
+                }
+            }
+        }
+    }
+    if base.sig == "WeakValid" && o.sig != "WeakValid" {
+        arch_det.push(format!("verify_signature={}", o.sig));
+    }
+    for (name, bt, ot) in [("SFileVerifyArchive(0)", base.varch_default, o.varch_default), ("SFileVerifyArchive(SIGNATURE)", base.varch_sig, o.varch_sig), ("SFileVerifyArchive(ALL_FILES)", base.varch_all, o.varch_all)] {
+        if bt == Some(true) && ot != Some(true) {
+            arch_det.push(format!("{name} fails"));
+        }
+    }
+    let mut class = "content-identical";
+    let mut any_err = false;
+    for (k, rr) in o.reads.iter().enumerate() {
+        match rr {
+            ReadRes::Same => {}
+            ReadRes::Err(_) | ReadRes::Panic(_) | ReadRes::NotRun => any_err = true,
+            ReadRes::Diff(len, first, desc) => {
+                let mut det = arch_det.clone();
+                if o.ffi_open {
+                    for j in 0..VFLAGS.len() {
+                        let bt = base.vfile.get(k).and_then(|r| r.get(j)).copied().flatten();
+                        let ot = o.vfile.get(k).and_then(|r| r.get(j)).copied().flatten();
+                        if bt == Some(true) && ot != Some(true) {
+                            det.push(format!("SFileVerifyFile(flags={:#x}) fails", VFLAGS[j]));
+                        }
+                    }
+                }
+                if det.is_empty() {
+                    class = "VIOLATION";
+                    viols.push((
+                        format!("{}: fault in {} -> read_file returns Ok with altered content and no verify operation reports failure", protection_for(b, span), span.region),
+                        format!("file {} [{}]: returned {} bytes, first difference at {}, {}; SFileVerifyFile flags(0,1,2,4)={:?} md5_status={:?} signature={}", b.files[k].name, b.files[k].storage, len, first, desc, o.vfile.get(k), o.md5, o.sig),
+                    ));
+                } else if class != "VIOLATION" {
+                    class = "altered-but-verify-fails";
+                }
+            }
+        }
+    }
+    if class == "content-identical" && any_err {
+        class = "read-error";
+    }
+    (viols, class)
+}
+
+impl Space for Faults {
+    fn len(&self) -> u64 {
+        self.cases.len() as u64
+    }
+    fn describe(&self, i: u64) -> Value {
+        let (a, s, o) = self.cases[i as usize];
+        let b = &self.built[a as usize];
+        let sp = &b.spans[s as usize];
+        json!({"archive": b.spec.id, "config": b.spec.json(), "region": sp.region, "file": sp.file.map(|f| b.files[f].name.clone()),
+               "offset": o, "rel": o as usize - sp.start, "region_bytes": sp.end - sp.start, "byte": format!("{:#04x}", b.bytes[o as usize])})
+    }
+    fn run(&self, i: u64) -> CaseResult {
+        let _g = self.lock.lock().unwrap();
+        let (a, s, o) = self.cases[i as usize];
+        let b = &self.built[a as usize];
+        let sp = &b.spans[s as usize];
+        let mut r = CaseResult::new();
+        r.key = format!("{}/{}", b.spec.id, o);
+        let base = self.baseline(a as usize);
+        if base.open_err.is_some() {
+            // the intact space reports this; nothing can be judged here
+            r.outcome = "baseline-unusable".into();
+            r.err_return = true;
+            return r;
+        }
+        let (fl, skipped) = faults_at(&b.bytes, sp, o as usize, self.tier);
+        r.count("noop_or_duplicate_faults_skipped", skipped);
+        let files = jfiles(b);
+        let all = self.all_files();
+        let p = self.sc.path("fault.mpq");
+        let mut classes: Vec<&'static str> = vec![];
+        let mut seen_sym: Vec<String> = vec![];
+        let mut refused = 0usize;
+        for f in &fl {
+            let mut bytes = b.bytes.clone();
+            for &(pos, v) in &f.writes {
+                bytes[pos] = v;
+            }
+            std::fs::write(&p, &bytes).expect("write scratch");
+            r.count("faulted_archives_evaluated", 1);
+            let class = match isolated(EVAL_TIMEOUT_MS, AS_LIMIT, || observe(&p, &files, all).to_json()) {
+                Iso::Done(v) if v.get("child_panic").is_some() => {
+                    r.viol("check-side panic while observing a faulted archive", v["child_panic"].to_string());
+                    "check-panic"
+                }
+                Iso::Done(v) => {
+                    let obs = Obs::from_json(&v);
+                    r.count("subject_panics_caught", obs.panics);
+                    for site in &obs.panic_sites {
+                        r.count(&format!("subject_panic_{site}"), 1);
+                    }
+                    let (vs, class) = judge(b, sp, base, &obs);
+                    for (sym, det) in vs {
+                        if !seen_sym.contains(&sym) {
+                            seen_sym.push(sym.clone());
+                            r.viol(sym, format!("fault {} at offset {} (+{} in {}): {}", f.label, o, o as usize - sp.start, sp.region, det));
+                        }
+                    }
+                    if class == "open-fails" {
+                        refused += 1;
+                    }
+                    class
+                }
+                Iso::Died(d) => {
+                    // abort / kill inside the subject: brutal, but not a silent acceptance
+                    r.count("subject_process_deaths", 1);
+                    r.count(&format!("subject_process_deaths_in_{}", sp.region.split('[').next().unwrap_or("")), 1);
+                    let _ = d;
+                    "process-dies"
+                }
+                Iso::Hung => {
+                    r.viol(format!("read / verify operations do not return on an archive with a fault in {}", sp.region), format!("fault {} at offset {}: no result within {} ms", f.label, o, EVAL_TIMEOUT_MS));
+                    "hang"
+                }
+            };
+            r.count(&format!("faults_{}", class), 1);
+            if !classes.contains(&class) {
+                classes.push(class);
+            }
+        }
+        classes.sort();
+        r.outcome = classes.join("+");
+        r.nontrivial = !fl.is_empty();
+        r.err_return = !fl.is_empty() && refused == fl.len();
+        r
+    }
+    fn case_timeout(&self) -> u64 {
+        300
+    }
+}
+
+// ---------------------------------------------------------------- driver
+
+fn build(name: &str, _arg: &str, tier: Tier) -> Box<dyn Space> {
+    match name {
+        "intact" => {
+            let sc = Scratch::new("c10i");
+            let built = build_all(tier, &sc);
+            Box::new(Intact { sc, built })
+        }
+        "allfiles" => Box::new(AllFiles::new(tier)),
+        "faults" => Box::new(Faults::new(tier)),
+        "sigprim" => Box::new(sigprim::SigPrim::new(tier)),
+        _ => panic!("space {name}"),
+    }
+}
+
+/// `--explain <index> [thorough]`: print what every fault of one `faults` case makes the subject do
+fn explain(tier: Tier, idx: u64) {
+    let f = Faults::new(tier);
+    let (a, s, o) = f.cases[idx as usize];
+    let b = &f.built[a as usize];
+    let sp = &b.spans[s as usize];
+    println!("case {}", f.describe(idx));
+    let base = f.baseline(a as usize);
+    println!("baseline {}", base.to_json());
+    let (fl, _) = faults_at(&b.bytes, sp, o as usize, tier);
+    let files = jfiles(b);
+    let p = f.sc.path("explain.mpq");
+    for ft in &fl {
+        let mut bytes = b.bytes.clone();
+        for &(pos, v) in &ft.writes {
+            bytes[pos] = v;
+        }
+        std::fs::write(&p, &bytes).unwrap();
+        match isolated(EVAL_TIMEOUT_MS, AS_LIMIT, || observe(&p, &files, false).to_json()) {
+            Iso::Done(v) => {
+                let obs = Obs::from_json(&v);
+                let (vs, class) = judge(b, sp, base, &obs);
+                println!("fault {:<24} class={} viols={:?}\n    {}", ft.label, class, vs.iter().map(|x| &x.0).collect::<Vec<_>>(), v);
+            }
+            Iso::Died(d) => println!("fault {:<24} child died: {}", ft.label, d),
+            Iso::Hung => println!("fault {:<24} hung", ft.label),
+        }
+    }
+}
+
+fn dump(tier: Tier) {
+    let sc = Scratch::new("c10d");
+    for b in build_all(tier, &sc) {
+        println!("{} len={} prot={} notes={:?}", b.spec.id, b.bytes.len(), b.spec.protection(), b.notes);
+        for f in &b.files {
+            println!("    file {} [{}] {} bytes", f.name, f.storage, f.data.len());
+        }
+        for s in &b.spans {
+            println!("    span {:>5}..{:<5} {:<55} file={:?} signed={}", s.start, s.end, s.region, s.file.map(|k| b.files[k].name.as_str()), s.signed);
+        }
+    }
+}
+
+fn main() {
+    let args: Vec<String> = std::env::args().collect();
+    if args.iter().any(|a| a == "--dump") {
+        install_panic_hook();
+        dump(if args.iter().any(|a| a == "thorough") { Tier::Thorough } else { Tier::Quick });
+        return;
+    }
+    if let Some(k) = args.iter().position(|a| a == "--explain") {
+        install_panic_hook();
+        explain(if args.iter().any(|a| a == "thorough") { Tier::Thorough } else { Tier::Quick }, args[k + 1].parse().unwrap());
+        return;
+    }
+    let Mode::Supervisor(mut c) = start("C10", "fault_enumeration", build) else { return };
+    c.rule = "space `intact`: one case per catalogue archive (every read/verify operation on the unmodified archive); space `allfiles`: SFileVerifyArchive(SFILE_VERIFY_ALL_FILES) on intact archives in a child process (quick: 4 archives, thorough: all). \
+              space `faults`: one case per (archive, protected byte offset); inside the case every fault value is applied to a fresh copy \
+              (thorough: ^0x01, ^0x80, =0x00, =0xFF at every offset, 2- and 4-byte 0xFF overwrites at offsets 4-aligned to the region start, all 8 single-bit flips on the 64 signature bytes; \
+              quick: ^0x01, =0xFF and the overwrites, stride 5 inside stored file payload and stride 3 inside the hash table, V1 and V4 only); protected regions = stored file data, sector offset table, sector checksum table / trailer of files with sector CRC or attributes, \
+              the (attributes) payload, V4 header incl. digest fields and the four digested tables, and for signed archives every byte hashed by the signature plus the 64 signature bytes; \
+              archives <= 4 KiB, sector size 512. A case is non-trivial when at least one fault value changes the byte(s); distinct = distinct (archive, offset). \
+              space `sigprim`: signed buffers of 0, 1, 64, 200, 2048, 64Ki-1, 64Ki, 64Ki+1, 64Ki+101, 128Ki+5 bytes x every single-bit flip of the signed bytes (thorough: every bit up to 64Ki+101) and of the signature. \
+              A fault is a violation only if read_file returns Ok with bytes != original and no verify operation that succeeded on the intact archive reports failure.".into();
+    c.assume("the independent mpqref parser locates header, tables and block entries; position of sector offset/checksum tables inside a stored file follows the published layout");
+    c.assume("storm-ffi is compiled into the check from /repo/ffi/storm-ffi/src/lib.rs (it has no rlib target); each faulted evaluation runs in a forked child whose address space may grow by 96 MiB; an abort or panic of the subject counts as 'failure reported', a hang is reported");
+    c.assume("verify operations that already fail on the intact archive are reported by space `intact` and cannot count as detectors in space `faults`");
+    c.assume("FILETIME values in generated full attributes are overwritten with a constant after the build so that archives are identical across processes");
+    c.run_space("intact", "");
+    c.run_space("allfiles", "");
+    c.run_space("faults", "");
+    c.run_space("sigprim", "");
+    {
+        let f = Faults::new(c.tier);
+        c.extra_cov.insert("axes_faults".into(), f.axes());
+        let s = sigprim::SigPrim::new(c.tier);
+        c.extra_cov.insert("axes_sigprim".into(), s.axes());
+    }
+    c.finish();
+}
